@@ -303,6 +303,11 @@ func (x *Exec) doReturn(st *State, s *ast.ReturnStmt) {
 			}
 		}
 		for i, o := range x.results {
+			if vals[i].Fn != nil {
+				// a closure returned to the caller: an opaque non-nil reference
+				st.vars[o] = Value{T: x.fieldTerm(st, vals[i], o.Type(), s.Pos()), Ty: o.Type()}
+				continue
+			}
 			st.vars[o] = x.convertTo(st, vals[i], o.Type(), s.Pos())
 		}
 	}
